@@ -65,6 +65,12 @@ def run(chk):
     for i in range(n):
         ops, pats = gen_ops(chk.rng)
         qs = gen_queries(chk.rng, pats)
+        if i < 4:
+            # route strings with a multi-byte character straddling each of the byte offsets a careless truncation would pick
+            for off in (4, 8, 16, 32, 48, 64, 100, 128, 255, 256, 1024):
+                for ch in ("\u00e9", "\u20ac", "\U0001F600"):
+                    for back in range(1, len(ch.encode())):
+                        qs.append("/" + "a" * (off - back - 1) + ch * 3)
         cases.append("router %s | %s" % (" ".join(ops), " ".join(hx(q.encode()) for q in qs)))
     # invalid registrations
     for p in ["", "a", "a/b", "*rest", "/a/*", "/a/*r/x", "/:id", "/a/:id/b"]:
